@@ -869,8 +869,20 @@ def _fmtn(v):
 
 
 
+def c01_21(ctx):
+    """the group and field arithmetic the verifier computes u*G + v*P with: scalar multiples incl. 0 and n (C03.14), the addition law on small
+    curves (C03.16), field operations that return to [0, p-1] (C03.10, C03.20) and identity operands (C03.21) -- rules shared with C03"""
+    from rules.C03 import c03_10, c03_14, c03_16, c03_20, c03_21
+    out = []
+    for f in (c03_14, c03_16, c03_10, c03_20, c03_21):
+        out += f(ctx)
+    return out
+
+
+
 OBLIGATIONS = [
     ("C01.20", "CELLS sign / verify", c01_20),
+    ("C01.21", "CELLS group law (shared C03)", c01_21),
     ("C01.19", "SHARED", c01_19),
     ("C01.18", "SET-ORDER", c01_18),
     ("C01.1", "RANGE accept-set", c01_1),
